@@ -1472,3 +1472,97 @@ func (l *Lang) EmptyListLiteral() *report.RuleResult {
 	}
 	return res
 }
+
+// ---- fold-span ---------------------------------------------------------------------------------------------
+//
+// PHP 5's grammar builds `$a->b[0]()->c` by folding a list of links into an accumulator: every iteration makes
+// the link the parent of what was accumulated so far (`nn.Var = acc`), gives it the span from the start of the
+// accumulated expression to its own end (`nn.Position = NewNodesPosition(acc, nn)`) and makes it the new
+// accumulator (`acc = nn`). The span is right only in that order: computed after `acc = nn` it runs from the
+// link to itself, and the node no longer contains its first child (round 6). For every case of every such
+// type switch the rule requires: the position is computed from (accumulator, link), and before the
+// accumulator is replaced.
+func (l *Lang) FoldSpan() *report.RuleResult {
+	res := report.NewResult("fold-span")
+	for n := 1; n < len(l.Actions); n++ {
+		a := l.Actions[n]
+		if a == nil || a.Clause == nil {
+			continue
+		}
+		loopNo := 0
+		ast.Inspect(a.Clause, func(nd ast.Node) bool {
+			ts, ok := nd.(*ast.TypeSwitchStmt)
+			if !ok {
+				return true
+			}
+			as, ok := ts.Assign.(*ast.AssignStmt)
+			if !ok || len(as.Lhs) != 1 {
+				return true
+			}
+			bound, ok := as.Lhs[0].(*ast.Ident)
+			if !ok {
+				return true
+			}
+			loopNo++
+			for _, c := range ts.Body.List {
+				cc := c.(*ast.CaseClause)
+				if len(cc.List) != 1 {
+					continue
+				}
+				// statements of the clause, in order
+				accAssign, posAssign := -1, -1
+				var acc string
+				var posCall *ast.CallExpr
+				for i, st := range cc.Body {
+					s, ok := st.(*ast.AssignStmt)
+					if !ok || len(s.Lhs) != 1 || len(s.Rhs) != 1 {
+						continue
+					}
+					if id, ok := s.Rhs[0].(*ast.Ident); ok && id.Name == bound.Name && accAssign < 0 {
+						if _, isSel := s.Lhs[0].(*ast.SelectorExpr); isSel || true {
+							lhs := types.ExprString(s.Lhs[0])
+							if !strings.HasPrefix(lhs, bound.Name+".") {
+								accAssign, acc = i, lhs
+							}
+						}
+					}
+					if se, ok := s.Lhs[0].(*ast.SelectorExpr); ok && se.Sel.Name == "Position" {
+						if id, ok := se.X.(*ast.Ident); ok && id.Name == bound.Name {
+							if call, ok := s.Rhs[0].(*ast.CallExpr); ok && posAssign < 0 {
+								posAssign, posCall = i, call
+							}
+						}
+					}
+				}
+				if accAssign < 0 || posAssign < 0 {
+					continue // not a fold step that re-positions the link
+				}
+				res.Count("fold-steps", 1)
+				key := fmt.Sprintf("%s:%s/fold#%d/%s", l.L.Label, l.L.G.Key(a.Prod), loopNo, types.ExprString(cc.List[0]))
+				pos := l.Prog.Pos(cc.Pos())
+				var bad []string
+				if posAssign > accAssign {
+					bad = append(bad, fmt.Sprintf("the span is computed after `%s = %s`: it runs from the link to itself, and the node does not contain what was accumulated before it", acc, bound.Name))
+				}
+				if len(posCall.Args) == 2 {
+					a0, a1 := types.ExprString(posCall.Args[0]), types.ExprString(posCall.Args[1])
+					if a0 != acc {
+						bad = append(bad, fmt.Sprintf("the span starts at %s, not at the accumulated expression %s", a0, acc))
+					}
+					if a1 != bound.Name {
+						bad = append(bad, fmt.Sprintf("the span ends at %s, not at the link %s", a1, bound.Name))
+					}
+				} else {
+					bad = append(bad, "the span is not computed from the accumulated expression and the link")
+				}
+				if len(bad) == 0 {
+					res.OK(key, pos, a.Prod.String(), "span from the accumulated expression to the link, computed before the accumulator is replaced")
+				} else {
+					res.Bad(key, pos, a.Prod.String(), strings.Join(bad, "; "))
+				}
+			}
+			return true
+		})
+	}
+	return res
+}
